@@ -640,6 +640,13 @@ class Interp:
         base[ts] = src[vs].copy()
 
 
+    def needs_at_loop(self, fr, lp):
+        if self.check_inv and any("at_loop" in cl.expr for cl in lp.inv):
+            return True
+        if any("at_loop" in cl.expr for cl in list(lp.iter) + list(lp.exit)):
+            return True
+        return any("at_loop" in cl.expr for v in fr.c.asserts.values() for cl in v)
+
     def snapshot(self, fr):
         return {k: (v.copy() if isinstance(v, np.ndarray) else v) for k, v in fr.env.items()}
 
@@ -681,7 +688,7 @@ class Interp:
                     raise v
             for gs in lp.ghost_pre:
                 self.ghost(gs, fr)
-            need_snap = self.check_inv and any("at_loop" in cl.expr for cl in lp.inv)
+            need_snap = self.needs_at_loop(fr, lp)
             fr.at_loop.append(self.snapshot(fr) if need_snap else fr.env)
             iter_snap = bool(lp.iter) or any("at_iter" in cl.expr for v in fr.c.asserts.values() for cl in v)
             k = lo
@@ -726,7 +733,7 @@ class Interp:
             lp = fr.c.loops.get(ordn) or S.Loop()
             for gs in lp.ghost_pre:
                 self.ghost(gs, fr)
-            need_snap = self.check_inv and any("at_loop" in cl.expr for cl in lp.inv)
+            need_snap = self.needs_at_loop(fr, lp)
             fr.at_loop.append(self.snapshot(fr) if need_snap else fr.env)
             self.check_invs(fr, lp, ordn, "inv-init")
             var = ast.parse(lp.variant, mode="eval").body if lp.variant else None
